@@ -67,6 +67,9 @@ def parts():
                    !old(self)@.contains_key(request_id) ==> (r matches Ok(reg) && final(self)@ =~= old(self)@.insert(request_id, SEntry { handle: reg.id() })), // @C08,C04
                    !old(self)@.contains_key(request_id) ==> !old(self).timers().contains_key(final(self).key_of(request_id))
                        && final(self).timers() =~= old(self).timers().insert(final(self).key_of(request_id), delay_queue::Entry { value: request_id, delay: dmin(until(deadline), max_timer_delay()) }), // @C06,C11
+                   // the steps of the history lemma (lemmas/server_history.rs)
+                   r matches Ok(reg) ==> sstep_start(old(self)@, final(self)@, request_id, reg.id(), true), // @C08
+                   r is Err ==> sstep_start(old(self)@, final(self)@, request_id, 0, false), // @C08
                '''),
             Fn(SRC, IMPL, 'cancel_request', fx=True, tags='C16',
                requires='old(self).wf(), // @core',
@@ -77,6 +80,7 @@ def parts():
                    old(self)@.contains_key(request_id) ==> final(fx).log == old(fx).log.push(SEffect::Abort { handle: old(self)@[request_id].handle }), // @C04
                    old(self)@.contains_key(request_id) ==> final(self).timers() =~= old(self).timers().remove(old(self).key_of(request_id)), // @C11
                    !old(self)@.contains_key(request_id) ==> final(fx).log == old(fx).log && final(self).timers() =~= old(self).timers(), // @C04,C16
+                   sstep_cancel(old(self)@, old(fx).log, final(self)@, final(fx).log, request_id, r), // @C04,C08
                '''),
             Fn(SRC, IMPL, 'remove_request', tags='C16',
                requires='old(self).wf(), // @core',
@@ -86,6 +90,7 @@ def parts():
                    r is Some == old(self)@.contains_key(request_id), // @C08
                    old(self)@.contains_key(request_id) ==> final(self).timers() =~= old(self).timers().remove(old(self).key_of(request_id)), // @C11
                    !old(self)@.contains_key(request_id) ==> final(self).timers() =~= old(self).timers(), // @C16
+                   sstep_remove(old(self)@, final(self)@, request_id, r is Some), // @C08
                '''),
             Fn(SRC, IMPL, 'poll_expired', fx=True, tags='C16',
                hints=[('let lifted__r = Self::poll_expired__closure(', '''
@@ -116,6 +121,7 @@ def parts():
                    r matches Poll::Ready(Some(id)) ==> old(self)@.contains_key(id) && final(self)@ =~= old(self)@.remove(id)
                        && old(self).timers().contains_key(old(self).key_of(id)) && final(self).timers() =~= old(self).timers().remove(old(self).key_of(id)), // @C06,C11
                    r matches Poll::Ready(Some(id)) ==> final(fx).log == old(fx).log.push(SEffect::Abort { handle: old(self)@[id].handle }), // @C06
+                   r matches Poll::Ready(Some(id)) ==> sstep_expire(old(self)@, old(fx).log, final(self)@, final(fx).log, id), // @C06,C08
                    r matches Poll::Ready(None) ==> old(self).timers() =~= Map::<delay_queue::Key, delay_queue::Entry>::empty() && final(self)@ =~= old(self)@ && final(self).timers() =~= old(self).timers() && final(fx).log == old(fx).log, // @C06,C10
                    r is Pending ==> final(self)@ =~= old(self)@ && final(self).timers() =~= old(self).timers() && final(fx).log == old(fx).log && final(self).timers_reg(), // @C02,C06
                '''),
@@ -126,4 +132,4 @@ def parts():
 def unit():
     from vx.extract import Unit
     return Unit('server_table', prelude=['base.rs', 'time.rs', 'delay_queue.rs', 'server_models.rs'],
-                parts=parts(), rules=TABLE_RULES, fx_fns=FX_CALLS, fx_prims=[], fx_type='SFx')
+                parts=parts(), rules=TABLE_RULES, fx_fns=FX_CALLS, fx_prims=[], fx_type='SFx', lemmas=['server_history.rs'])
